@@ -108,8 +108,9 @@ def _decoded(op):
 
 def both_parts(ob, facts, failures, coverage, tier, seed):
     from . import c07hist       # refused calls over whole histories (Props/C06.lean refused_calls_invisible_partial)
+    from . import limitseng     # storage part: a storage call that reports failure leaves the store as it was (Props/C10Limits.lean)
     return ffi_part(ob, facts, failures, coverage, tier, seed) + parsers_part(ob, facts, failures, coverage, tier, seed) + \
-        c07hist.engine_refused(ob, facts, failures, coverage, tier, seed)
+        c07hist.engine_refused(ob, facts, failures, coverage, tier, seed) + limitseng.hostile_engine(ob, facts, failures, coverage, tier, seed)
 
 def run(tier, seed, t0, H):
     return check_world.run(PROP, tier, seed, t0, H, second=check_wrap.extra, second_engine=both_parts)
